@@ -368,6 +368,11 @@ def bi_warn(eng, args, kwargs, fr):
     return None
 
 
+def bi_warnings_warn(eng, args, kwargs, fr):
+    eng.warned.append(args[0] if args else "")
+    return None
+
+
 def bi_sum(eng, args, kwargs, fr):
     v = args[0]
     start = args[1] if len(args) > 1 else 0
@@ -516,7 +521,13 @@ def call_method_builtin(eng, recv, name, args, kwargs, fr):
         if name == "copy":
             return dict(recv)
         if name == "pop":
+            if eng.frame_writes is not None:
+                eng.frame_writes.add(id(recv))
             return recv.pop(*args)
+        if name == "setdefault":
+            if eng.frame_writes is not None:
+                eng.frame_writes.add(id(recv))
+            return recv.setdefault(args[0], args[1] if len(args) > 1 else None)
         raise Unsupported("dict method %s on concrete table" % name)
     if isinstance(recv, ListVal):
         if eng.frame_writes is not None and name in ("append", "extend", "insert", "pop", "remove", "clear", "sort"):
